@@ -409,7 +409,7 @@ pub fn check_file(b: &Built, with_zstd: bool) -> FileOutcome {
             let got: Vec<(u8, usize)> = o.chunks.iter().map(|c| (c.kind, c.span)).collect();
             let want: Vec<(u8, usize)> = exp.iter().map(|c| (c.kind, c.span)).collect();
             if got != want {
-                o.viol.push(("C06".into(), "chunks-differ".into(), format!("chunk list {:?} differs from the expected {:?}", got, want)));
+                o.viol.push(("SCAN".into(), "chunks-differ".into(), format!("chunk list {:?} differs from the expected {:?}", got, want)));
             }
         }
     }
@@ -460,7 +460,7 @@ pub fn replay(args: &Args) -> i32 {
             let got: Vec<u64> = o.chunks.iter().map(|c| c.kind as u64).collect();
             let want: Vec<u64> = spec.as_array().unwrap().iter().map(|x| x.as_u64().unwrap()).collect();
             if b.expect.is_some() && o.expanded_ok && got != want {
-                j["viol"].as_array_mut().unwrap().push(json!({"prop":"C06","sig":"chunk-kinds-differ-from-spec","why":format!("chunk kinds {:?} differ from the specification's {:?}", got, want)}));
+                j["viol"].as_array_mut().unwrap().push(json!({"prop":"SCAN","sig":"chunk-kinds-differ-from-spec","why":format!("chunk kinds {:?} differ from the specification's {:?}", got, want)}));
                 j["hex"] = Value::String(hex(&b.bytes));
             }
         }
